@@ -434,6 +434,8 @@ def oracle_lex(case):
     from genshi.template.interpolation import interpolate
     from genshi.template.base import TemplateSyntaxError
     parts = case['parts']
+    if case.get('raw'):
+        return None
     text, want = '', []
     for p in parts:
         k, s = p
@@ -498,6 +500,18 @@ LEX_TEXT = ['', ' ', 'hey ', 'x{y}z', '}', '{', 'a.b', '\n', 'é', '"', "'", '#'
 LEX_NAMES = ['a', 'a.b', 'foo.bar.baz', '_x', 'a1', 'x.y1']
 
 
+LEX_ALPHA = ['${', '${', '${', '$', '$', '{', '}', '}', "'", '"', '#', '\\', ' ', '\n', 'a', 'b', '.', '1', '_', '(', ')', '+', ':', ',', '\t', 'x', '[', ']', '!', '?', '`', '\r']
+
+
+def gen_lex_raw(rng, n):
+    """arbitrary short texts over an alphabet rich in $ { } quotes # backslash (model correspondence only:
+    the boundary oracle has nothing to say about malformed text)"""
+    out = []
+    for _ in range(n):
+        out.append({'kind': 'lex', 'raw': True, 'parts': [['r', ''.join(rng.choice(LEX_ALPHA) for _ in range(rng.randrange(1, 14)))]]})
+    return out
+
+
 def gen_lex(rng, n):
     out = []
     for _ in range(n):
@@ -554,8 +568,57 @@ def nontrivial_key(case, cls):
     return case['lookup'] + ':' + cls + ':' + ','.join(kinds)
 
 
+def lex_text(case):
+    text = ''
+    for k, s_ in case['parts']:
+        text += {'t': s_, 'e': '${' + s_ + '}', 'n': '$' + s_, 'd': '$$', 'r': s_}[k]
+    return text
+
+
+def real_lex(text):
+    from genshi.template.interpolation import lex
+    from genshi.template.base import TemplateSyntaxError
+    try:
+        return [Atom('ok'), [[Atom('T') if e else Atom('F'), c] for e, c in lex(text, [None, -1, 0], None)]]
+    except TemplateSyntaxError:
+        return Atom('err')
+
+
 def compare_model(cases, res):
-    pass
+    """Lean xform vs the real ExpressionASTTransformer (trees), Lean lex vs interpolation.lex"""
+    from genshi.template import eval as ev
+    lines, meta = [], []
+    for c in cases:
+        if c.get('kind') == 'lex':
+            text = lex_text(c)
+            lines.append(proto.line(Atom('C03'), Atom('lex'), text))
+            meta.append(('lex', c, real_lex(text)))
+            continue
+        try:
+            node = ev._parse(c['src'], 'eval')
+            want = G.to_wire(ev.ExpressionASTTransformer().visit(copy.deepcopy(node)).body)
+            req = proto.line(Atom('C03'), Atom('xform'), G.to_wire(node.body))
+        except RecursionError:
+            res.count('model:recursion-limit')
+            continue
+        except SyntaxError:
+            continue
+        lines.append(req)
+        meta.append(('xform', c, [Atom('ok'), want]))
+    answers = proto.run_lines(lines)
+    for (what, c, want), ans in zip(meta, answers):
+        if ans == 'unmodelled':
+            res.count('model:%s:unmodelled' % what)
+            continue
+        res.streams[what] = res.streams.get(what, 0) + 1
+        try:
+            model = proto.dec(ans)
+        except Exception:  # noqa
+            model = Atom(ans)
+        if what == 'lex':
+            res.count('model:lex:' + ('err' if want == 'err' else 'ok'))
+        if model != want:
+            res.disagreements.append({'stream': what, 'case': c, 'model': repr(model)[:700], 'real': repr(want)[:700]})
 
 
 def shard(arg):
@@ -572,6 +635,7 @@ def shard(arg):
     if idx == 0:
         cases += [{'kind': 'eval', 'src': s, 'lookup': lk, 'data': d} for s, d in HAND for lk in ('strict', 'lenient')]
     cases += gen_lex(rng, nlex)
+    cases += gen_lex_raw(rng, nlex * 4)
     for c in cases:
         res.evaluations += 1
         try:
